@@ -32,6 +32,6 @@ rm -rf $S/gpy.base $S/gpy.mut $S/zz_seed_demo
 for P in "$@"; do
   OUT=$(/verif/bin/gvc -repo $S -verif /verif -noevidence check $P quick 2>&1)
   echo "check $P: exit=$? ; $(echo "$OUT" | grep -c '^VIOLATION') violation lines"
-  echo "$OUT" | grep "failed obligation" | head -6
+  echo "$OUT" | grep "failed obligation" | grep -v "not generated" | head -6; echo "$OUT" | grep -c "not generated" | sed "s|^|  (plus obligations no longer generated: |; s|$|)|"
 done
 rm -rf $S
